@@ -71,7 +71,7 @@ def run_version(args):
             raised = 0
             try:
                 ezsp.frame_received(frame)
-            except Exception:  # noqa
+            except BaseException:  # noqa
                 raised = 1
             await apprig.settle(loop)
             return raised
